@@ -13,6 +13,12 @@ from concurrent.futures import ThreadPoolExecutor
 
 VERIF = os.path.dirname(os.path.dirname(os.path.abspath(__file__)))
 REPO = "/repo"
+try:   # the crate under test is wherever the harness's path dependency points (normally /repo)
+    _m = re.search(r'ruint\s*=\s*\{\s*path\s*=\s*"([^"]+)"', open(os.path.join(VERIF, "harness", "Cargo.toml")).read())
+    if _m:
+        REPO = _m.group(1)
+except OSError:
+    pass
 COQ = os.path.join(VERIF, "coq")
 BUILD = os.path.join(VERIF, "_build")
 TARGET = os.path.join(BUILD, "target")
